@@ -43,7 +43,7 @@ fn shape(r: &mut Rng) -> Shape {
     let k = r.range(1, 9);
     let depth = r.below(4);
     let hop = r.below(4);
-    let kind = r.below(12);
+    let kind = r.below(24);
     // how the loop is entered: directly, through `^f`, through `^~`, or below other frames
     let enter = move |loop_name: &str, arg: String| -> (String, String) {
         match hop {
@@ -131,6 +131,61 @@ fn shape(r: &mut Rng) -> Shape {
                 format!("loop = #P[n: 'int, acc: 'int] {{ | =P[n: 0, acc: a] => a | =P[n: m, acc: a] => [m, 1] __integer_subtract__ P[n: ~, acc: [a, {k}] __integer_add__] ^ }},\nP[n: {n}, acc: 0] loop")
             }),
         },
+        12 | 13 => {
+            // the loop re-enters itself through a NAMED tail call `^self` (the function is handed to
+            // itself, the idiom of std/iter.qv) written inside a nested block that survives
+            // simplification: it binds, matches, or has several `|` branches
+            let form = r.below(4);
+            Shape {
+                kind: match form { 0 => "named-in-binding-block", 1 => "named-in-matching-block", 2 => "named-in-branch-block", _ => "named-in-function-branch" },
+                make: Box::new(move |n| {
+                    let body = match form {
+                        0 => format!("{{ m = [n, 1] __integer_subtract__, [&self, m, [acc, {k}] __integer_add__] ^self }}"),
+                        1 => format!("{{ [n, acc] =[a, b], [&self, [a, 1] __integer_subtract__, [b, {k}] __integer_add__] ^self }}"),
+                        2 => format!("{{ | n =1 => [&self, 0, [acc, 1] __integer_add__] ^self | [&self, [n, 1] __integer_subtract__, [acc, {k}] __integer_add__] ^self }}"),
+                        _ => format!("[&self, [n, 1] __integer_subtract__, [acc, {k}] __integer_add__] ^self"),
+                    };
+                    format!("loop = #[#^ -> 'int, 'int, 'int] {{ | =[_, 0, acc] => acc | =[self, n, acc] => {body} }},\n[&loop, {n}, 0] loop")
+                }),
+            }
+        }
+        14 | 15 => {
+            // re-entry through a RIPPLE tail call `self ^~` (thunk idiom) inside a nested block
+            let form = r.below(3);
+            Shape {
+                kind: match form { 0 => "ripple-in-binding-block", 1 => "ripple-in-branch-block", _ => "ripple-in-matching-block" },
+                make: Box::new(move |n| {
+                    let body = match form {
+                        0 => format!("#{{ | n =0 => acc | {{ m = [n, 1] __integer_subtract__, [&self, m, [acc, {k}] __integer_add__] self ^~ }} }}"),
+                        1 => format!("#{{ {{ | n =0 => acc | n =1 => [&self, 0, [acc, 1] __integer_add__] self ^~ | [&self, [n, 1] __integer_subtract__, [acc, {k}] __integer_add__] self ^~ }} }}"),
+                        _ => format!("#{{ | n =0 => acc | {{ [n, acc] =[a, b], [&self, [a, 1] __integer_subtract__, [b, {k}] __integer_add__] self ^~ }} }}"),
+                    };
+                    format!("mk = #[#^ -> (#[] -> 'int), 'int, 'int] {{ =[self, n, acc], {body} }},\n[&mk, {n}, 0] mk =t, t")
+                }),
+            }
+        }
+        16 | 17 => Shape {
+            // mutual recursion: ping and pong hand control to each other with `^other`, each call
+            // inside a nested multi-branch block
+            kind: "mutual-in-branch-block",
+            make: Box::new(move |n| {
+                format!("pong = #[#^ -> 'int, #^ -> 'int, 'int, 'int] {{ =[me, other, n, acc], {{ | n =0 => acc | [&other, &me, [n, 1] __integer_subtract__, [acc, 1] __integer_add__] ^other }} }},\nping = #[#^ -> 'int, #^ -> 'int, 'int, 'int] {{ =[me, other, n, acc], {{ | n =0 => acc | [&other, &me, [n, 1] __integer_subtract__, [acc, {k}] __integer_add__] ^other }} }},\n[&ping, &pong, {n}, 0] ping")
+            }),
+        },
+        18..=22 => {
+            // the standard library's iterator skip loops (`self ^~` inside nested blocks)
+            let form = kind - 18;
+            Shape {
+                kind: match form { 0 => "std-iter-filter", 1 => "std-iter-drop", 2 => "std-iter-drop_while", 3 => "std-iter-cycle", _ => "std-iter-flat_map" },
+                make: Box::new(move |n| match form {
+                    0 => format!("{n} %range.to %range.iter [~, #'int {{ ={} }}] %iter.filter [~, 0] %iter.nth", n - 1),
+                    1 => format!("{n} %range.to %range.iter [~, {}] %iter.drop [~, 0] %iter.nth", n - 1),
+                    2 => format!("{n} %range.to %range.iter [~, #'int {{ [~, {}] %num.lt? }}] %iter.drop_while [~, 0] %iter.nth", n - 1),
+                    3 => format!("3 %range.to %range.iter %iter.cycle [~, {n}] %iter.nth"),
+                    _ => format!("{n} %range.to %range.iter [~, #'int {{ | ={} => 1 %range.to %range.iter | 0 %range.to %range.iter }}] %iter.flat_map [~, 0] %iter.nth", n - 1),
+                }),
+            }
+        }
         _ => Shape {
             kind: "tail-in-fallback-branch",
             make: Box::new(move |n| {
@@ -189,11 +244,125 @@ fn run_server(src: &str, b: &Builtins, iterations: u64) -> Result<(Vec<(usize, u
     .unwrap_or_else(|p| Err(format!("panic: {}", p.lines().next().unwrap_or(""))))
 }
 
+/// What else lives on the executor while the churning loop runs.
+#[derive(Clone, Copy, Debug, PartialEq)]
+enum Parked {
+    Nobody,
+    /// a process waiting for the answer to an effect request (`effecting`): the normal state of an
+    /// I/O server blocked in accept / read / stat
+    Effect,
+    /// a process whose spawn request has not been answered (`spawning`)
+    Spawning,
+    /// a process waiting in a receive (`selecting`)
+    Receiving,
+}
+
+struct Churn {
+    slots_end: usize,
+    peak_in_use: usize,
+    peak_pending: usize,
+    steps: usize,
+}
+
+/// The program's value is `[effect fn, spawner fn, receiver fn, churn loop]`; the loop allocates
+/// and drops binaries and tail-calls itself.
+fn churn_program(variant: u64, k: i64) -> String {
+    let body = match variant {
+        0 => "{ [0x01, 0x02] __binary_concat__, [n, 1] __integer_subtract__ ^ }".to_string(),
+        1 => format!("{{ b = [0x0a0b, 0x{:02x}] __binary_concat__, c = [b, b] __binary_concat__, [n, 1] __integer_subtract__ ^ }}", k),
+        2 => "{ | n =1 => { [0x01, 0x02] __binary_concat__ =last, 0 ^ } | { t = [[0x03, 0x04] __binary_concat__, n], [n, 1] __integer_subtract__ ^ } }".to_string(),
+        _ => "{ [0x05, 0x06] __binary_concat__ =b, [b, 0x07] __binary_concat__ =c, [c, b] =pair, [n, 1] __integer_subtract__ ^ }".to_string(),
+    };
+    format!("[\n  #{{ 0x2f __filesystem_stat__ }},\n  #{{ @#{{ 1 }} }},\n  #{{ !#'int }},\n  #'int {{ | =0 => Ok | =n => {body} }}\n]")
+}
+
+/// Runs the churn loop for `n` iterations as a process of a real executor, driven step by step
+/// (virtual clock 0, no Environment), optionally with another process parked on the same executor.
+/// After every `step` (the point where `process_pending_free` ran) the heap view is sampled.
+fn run_churn(src: &str, n: u64, parked: Parked, b: &Builtins) -> Result<Churn, String> {
+    use quiver_core::value::Value;
+    let unit = compile_source(src, &HashMap::new(), b).map_err(|e| format!("front end: {e:?}"))?;
+    let bc = unit.program.to_bytecode(Some(unit.entry));
+    let (end, _, ex) = run_budgeted(&bc, b, false, false, 4000, 1000);
+    let Some(mut ex) = ex else { return Err(format!("load: {end:?}")) };
+    let fields = match ex.get_process(0).and_then(|p| p.result.clone()) {
+        Some(Ok(Value::Tuple(_, fields))) => fields,
+        other => return Err(format!("load: unexpected value {other:?}")),
+    };
+    let idx = |v: &Value| match v {
+        Value::Function(i, caps) if caps.is_empty() => Ok(*i),
+        other => Err(format!("load: expected a capture-free function, got {other:?}")),
+    };
+    let (f_effect, f_spawner, f_receiver, f_churn) = (idx(&fields[0])?, idx(&fields[1])?, idx(&fields[2])?, idx(&fields[3])?);
+    qverif::catch(move || {
+        let mut outstanding = None;
+        let other = match parked {
+            Parked::Nobody => None,
+            Parked::Effect => Some(f_effect),
+            Parked::Spawning => Some(f_spawner),
+            Parked::Receiving => Some(f_receiver),
+        };
+        if let Some(f) = other {
+            ex.spawn_process(1, Some(f), vec![], Value::nil(), vec![], false).map_err(|e| format!("spawn parked: {e:?}"))?;
+            // step it until it has handed its request over / parked in its receive
+            for _ in 0..200 {
+                let (did, action) = ex.step(1000, 0);
+                if let Some(a) = action {
+                    outstanding = Some(a); // left unanswered for the duration of the loop
+                    break;
+                }
+                if !did {
+                    break;
+                }
+            }
+            let (spawning, selecting, effecting) = ex.verif_parked();
+            let ok = match parked {
+                Parked::Effect => effecting.contains(&1),
+                Parked::Spawning => spawning.contains(&1),
+                Parked::Receiving => selecting.contains(&1),
+                Parked::Nobody => true,
+            };
+            if !ok {
+                return Err(format!("the other process is not parked as intended ({parked:?}): spawning={spawning:?} selecting={selecting:?} effecting={effecting:?}"));
+            }
+        }
+        ex.spawn_process(2, Some(f_churn), vec![], Value::Integer((n as i64).into()), vec![], false).map_err(|e| format!("spawn churn: {e:?}"))?;
+        let mut out = Churn { slots_end: 0, peak_in_use: 0, peak_pending: 0, steps: 0 };
+        let budget = n as usize * 60 + 5000;
+        loop {
+            let (_did, _action) = ex.step(1000, 0);
+            out.steps += 1;
+            let hv = ex.verif_heap_view();
+            let in_use = hv.freed.iter().filter(|f| !**f).count();
+            out.peak_in_use = out.peak_in_use.max(in_use);
+            out.peak_pending = out.peak_pending.max(hv.pending_free.len());
+            match ex.get_process(2).and_then(|p| p.result.clone()) {
+                Some(Ok(_)) => break,
+                Some(Err(e)) => return Err(format!("churn loop failed: {}", qverif::canon::error_class(&e))),
+                None => {}
+            }
+            if out.steps > budget {
+                return Err("churn loop did not finish".to_string());
+            }
+        }
+        if let Err(e) = ex.check_refcounts() {
+            return Err(format!("refcount invariant: {e}"));
+        }
+        out.slots_end = ex.heap_stats().slots;
+        drop(outstanding);
+        Ok(out)
+    })
+    .unwrap_or_else(|p| Err(format!("panic: {}", p.lines().next().unwrap_or(""))))
+}
+
 struct Peaks {
     frames: usize,
     locals: usize,
     stack: usize,
     slots: usize,
+    /// peak slots in use / deferred-free queue length sampled at every step boundary
+    in_use: usize,
+    pending: usize,
     instructions: u64,
     result: String,
 }
@@ -205,7 +374,7 @@ fn run_profile(src: &str, b: &Builtins, iterations: u64) -> Result<Peaks, String
     let bc = unit.program.to_bytecode(Some(unit.entry));
     // a slice ends at 1000 units *or whenever a frame returns*: allow 60 slices per iteration
     let max_slices = iterations as usize * 60 + 2000;
-    let (end, _, ex) = run_budgeted(&bc, b, true, false, max_slices, 1000);
+    let (end, _, ex, hp) = run_budgeted_heap(&bc, b, true, false, max_slices, 1000, true);
     match (end, ex) {
         (RunEnd::Value, Some(ex)) => {
             let result = ex
@@ -222,6 +391,8 @@ fn run_profile(src: &str, b: &Builtins, iterations: u64) -> Result<Peaks, String
                 locals: ex.stats.peak_locals_size,
                 stack: ex.stats.peak_stack_size,
                 slots: ex.heap_stats().slots,
+                in_use: hp.in_use,
+                pending: hp.pending,
                 instructions: ex.stats.total_instructions(),
                 result,
             })
@@ -267,7 +438,7 @@ fn main() {
         let n = 24 + r.below(30);
         let (kind, make): (String, Box<dyn Fn(u64) -> String>) = if (i as usize) < fixed.len() {
             let (name, text) = fixed[i as usize].clone();
-            (format!("corpus:{name}"), Box::new(move |n| text.replace("@N@", &n.to_string())))
+            (format!("corpus:{name}"), Box::new(move |n| text.replace("@N-1@", &(n - 1).to_string()).replace("@N@", &n.to_string())))
         } else {
             let sh = shape(&mut r);
             (sh.kind.to_string(), sh.make)
@@ -317,6 +488,16 @@ fn main() {
                 &format!("shape={kind} kind=heap-grows"),
                 &format!("heap slots of shape {kind}: {} at N={n}, {} at 50N, {} at 100N (slack {slack})", pn.slots, p50.slots, p100.slots),
                 json!({"source_at_N": src_n, "source_at_50N": src_50, "N": n, "slots": [pn.slots, p50.slots, p100.slots], "slack": slack}),
+                true,
+            );
+        }
+        if p50.in_use > pn.in_use + slack || p100.in_use > p50.in_use + allocs_per_iter as usize * 2 + 2
+            || p50.pending > pn.pending + slack
+        {
+            ev.violation(
+                &format!("shape={kind} kind=heap-in-use-grows"),
+                &format!("shape {kind}: peak heap slots in use / queued at a step boundary: {}/{} at N={n}, {}/{} at 50N, {}/{} at 100N (slack {slack})", pn.in_use, pn.pending, p50.in_use, p50.pending, p100.in_use, p100.pending),
+                json!({"source_at_N": src_n, "source_at_50N": src_50, "N": n, "in_use": [pn.in_use, p50.in_use, p100.in_use], "pending": [pn.pending, p50.pending, p100.pending], "slack": slack}),
                 true,
             );
         }
@@ -528,13 +709,62 @@ fn main() {
             }
         }
     }
+    // a binary-churning loop with ANOTHER process of the same executor parked in an effect, in a
+    // spawn request, or in a receive: reclamation must not depend on what the neighbours wait for
+    let mut b_io = qverif::run::builtins();
+    quiver_io::attach_file_builtins(&mut b_io);
+    let n_churn = opts.tier.pick(8u64, 120u64);
+    let mut churn_checked = 0u64;
+    for i in 0..n_churn {
+        let mut r = Rng::for_case(opts.seed ^ 0xC4A2, i);
+        let variant = i % 4;
+        let k = r.range(1, 200);
+        let n = 150 + r.below(150);
+        let src = churn_program(variant, k);
+        for parked in [Parked::Nobody, Parked::Effect, Parked::Spawning, Parked::Receiving] {
+            ev.hit(&format!("churn:{parked:?}"));
+            match (run_churn(&src, n, parked, &b_io), run_churn(&src, 50 * n, parked, &b_io)) {
+                (Ok(a), Ok(c)) => {
+                    churn_checked += 1;
+                    ev.case(&(src.clone(), format!("{parked:?}"), n), true);
+                    ev.sample_sparse(i * 4 + parked as u64, 13, || json!({"churn_variant": variant, "parked": format!("{parked:?}"), "N": n,
+                        "at_N": [a.slots_end, a.peak_in_use, a.peak_pending], "at_50N": [c.slots_end, c.peak_in_use, c.peak_pending]}));
+                    // one slice's worth of not-yet-reclaimed garbage at most
+                    let slack = 64usize;
+                    for (what, x, y) in [("heap slots at the end", a.slots_end, c.slots_end), ("peak heap slots in use at a step boundary", a.peak_in_use, c.peak_in_use), ("peak deferred-free queue length", a.peak_pending, c.peak_pending)] {
+                        if y > x + slack {
+                            ev.violation(
+                                &format!("churn parked={parked:?} kind=heap-grows"),
+                                &format!("binary-churning loop (variant {variant}) with {parked:?} parked on the same executor: {what} = {x} after {n} iterations and {y} after {}", 50 * n),
+                                json!({"program": src, "N": n, "parked": format!("{parked:?}"), "what": what, "at_N": x, "at_50N": y,
+                                       "all_N": [a.slots_end, a.peak_in_use, a.peak_pending, a.steps], "all_50N": [c.slots_end, c.peak_in_use, c.peak_pending, c.steps]}),
+                                true,
+                            );
+                        }
+                    }
+                }
+                (a, c) => {
+                    let why = [a.err(), c.err()].into_iter().flatten().next().unwrap_or_default();
+                    ev.hit(&format!("churn:skipped:{}", why.split(':').next().unwrap_or("?")));
+                    ev.case(&(src.clone(), format!("{parked:?}"), n), false);
+                    if why.starts_with("refcount") || why.starts_with("panic") || why.starts_with("churn loop") {
+                        ev.violation(&format!("churn parked={parked:?} kind=run-failed"), &format!("binary-churning loop with {parked:?} parked: {why}"),
+                            json!({"program": src, "N": n, "parked": format!("{parked:?}"), "why": why}), true);
+                    } else {
+                        ev.set_extra("churn_last_skip_reason", json!(why));
+                    }
+                }
+            }
+        }
+    }
+    ev.set_extra("churn_runs_checked", json!(churn_checked));
     ev.set_extra("server_loops_checked", json!(servers_checked));
     ev.set_extra("shapes", json!(total));
     ev.set_extra("tailcall_steps_replayed_in_model", json!(tailcalls_replayed));
     ev.set_extra("closed_form_samples_checked", json!(samples_checked));
     ev.set_extra("loop_reentries_observed", json!(reentries));
     ev.set_extra("model_requests", json!(model.requests));
-    println!("C16: {servers_checked} message-driven server loops;");
+    println!("C16: {servers_checked} message-driven server loops; {churn_checked} churn runs with a parked neighbour;");
     println!("C16: {total} shapes, {reentries} loop re-entries observed, {tailcalls_replayed} TailCall steps replayed in the model, {samples_checked} closed-form samples");
     std::process::exit(ev.finish());
 }
